@@ -17,7 +17,8 @@ PROP = 'C17'
 RULE = ("scenario = 1..4 files (some empty, some fully skipped by a file-level since "
         "constraint) x 1..4 simple/sequence searches registered on subsets (duplicates "
         "included); single-file in-process and multi-file multi-process; 40% of the cases run "
-        "the same searcher twice; a few multi-process runs with the results queue patched down "
+        "the same searcher twice; one file of exactly 100000 lines (more sizes around the 100000-line progress period in "
+        "thorough); a few multi-process runs with the results queue patched down "
         "to 2..4 slots so that workers cross put_result's queue-full retry path; non-trivial = results > 0, lines_searched > 0 and (>= 2 "
         "files or a second run); distinct by scenario hash")
 
@@ -33,6 +34,20 @@ def gen_scenario(rng, tier, multi):
         scn['_late_regs'] = [[len(scn['defs']) - 1, rng.randrange(nfiles)]
                              for _ in range(rng.choice([1, 1, 2]))]
     return scn
+
+
+def big_scenario(nlines, multi):
+    """ a file with exactly `nlines` lines (the progress-report period of _run_search is
+    100000 lines): lines_searched must still be exact """
+    body = [b'x'] * nlines
+    for k in (0, nlines // 2, nlines - 1):
+        body[k] = b'err %d' % k
+    files = [{'name': 'big.log', 'content': (b'\n'.join(body) + b'\n').hex()}]
+    if multi:
+        files.append({'name': 'small.log', 'content': b'err 1\nx\n'.hex()})
+    return {'files': files, 'defs': [{'type': 'simple', 'pats': [r'err (\d+)'], 'tag': 't1',
+                                      'store': True}],
+            'regs': [[0, k] for k in range(len(files))], '_twice': False}
 
 
 def run_impl(scn):
@@ -158,6 +173,9 @@ def run(tier, seed, replay_case=None):
         items += core.run_sharded(eval_cases, seed, n_single, {'tier': tier})
         items += core.run_sharded(eval_cases, seed + 1, n_multi, {'tier': tier, 'multi': True},
                                   shards=min(core.NCPU, n_multi))
+        bigs = [(100000, False)] if tier == 'quick' else \
+            [(99999, False), (100000, False), (100001, True), (200000, False), (250000, True)]
+        items += eval_cases(None, 0, {'fixed': [big_scenario(n, m) for n, m in bigs]})
         ndq = 4 if tier == 'quick' else 40
         items += core.run_sharded(eval_cases, seed + 2, ndq, {'tier': tier, 'deepq': True},
                                   shards=min(4, ndq), workers=4)
